@@ -278,6 +278,19 @@ func clip64k(p []byte) []byte {
 	return p
 }
 
+// c09MinimalOpts: the smallest well-formed payload of every option type the library parses.
+var c09MinimalOpts = []struct {
+	code    uint16
+	payload []byte
+}{
+	{1, []byte{0, 3, 0, 1}}, {2, []byte{0, 3, 0, 1}}, {3, make([]byte, 12)}, {4, make([]byte, 4)}, {5, make([]byte, 24)}, {6, []byte{0, 23}},
+	{7, []byte{1}}, {8, []byte{0, 1}}, {9, []byte{1, 0, 0, 0}}, {13, []byte{0, 0}}, {14, nil}, {15, []byte{0, 1, 'x'}}, {16, []byte{0, 0, 0, 9, 0, 1, 'x'}},
+	{17, []byte{0, 0, 0, 9}}, {18, []byte{1}}, {23, make([]byte, 16)}, {24, []byte{1, 'a', 0}}, {25, make([]byte, 12)}, {26, make([]byte, 25)},
+	{32, []byte{0, 0, 2, 88}}, {37, []byte{0, 0, 0, 9, 1}}, {39, []byte{0, 1, 'a', 0}}, {56, append([]byte{0, 1, 0, 16}, make([]byte, 16)...)},
+	{59, []byte{'u'}}, {60, []byte{0, 1, 'x'}}, {61, []byte{0, 7}}, {62, []byte{1, 2, 1}}, {79, []byte{0, 1, 2, 3, 4, 5, 6, 7}},
+	{88, make([]byte, 16)}, {97, nil}, {99, []byte{0, 0, 0, 0}}, {135, []byte{2, 35}},
+}
+
 var c09Families = []c09Family{
 	{Name: "v6/label-pointer-fan", V6: true, Make: func(n, variant int) []byte {
 		// one name as long as the limits allow, then pointers onto it
@@ -374,6 +387,26 @@ var c09Families = []c09Family{
 	{Name: "v6/minimal-options", V6: true, Make: func(n, variant int) []byte {
 		unit := [][]byte{{0, 14, 0, 0}, {0, 200, 0, 0}, {0, 18, 0, 0}, {0, 59, 0, 0}, {0, 6, 0, 0}, {0, 60, 0, 0}}[variant%6]
 		return append([]byte{1, 1, 2, 3}, rep(unit, n-4)...)
+	}},
+	{Name: "v6/mixed-list-repeated-known", V6: true, Variants: 3 * len(c09MinimalOpts), Make: func(n, variant int) []byte {
+		// one flat option list in which ONE option type (every type in turn, with its smallest well-formed payload)
+		// is repeated as often as fits — after a long run of unknown options, alternating with them, or alone:
+		// whatever a decoder does per repeated option (look-ups, replacement, de-duplication, list rebuilding)
+		// must not depend on how long the list already is
+		u := c09MinimalOpts[variant%len(c09MinimalOpts)]
+		unit := v6opt(u.code, u.payload)
+		other := []byte{0, 200, 0, 0}
+		b := []byte{1, 1, 2, 3}
+		switch variant / len(c09MinimalOpts) % 3 {
+		case 0:
+			b = append(b, rep(other, n/2)...)
+			b = append(b, rep(unit, max(len(unit), n-len(b)))...)
+		case 1:
+			b = append(b, rep(append(append([]byte{}, other...), unit...), max(len(unit)+4, n-4))...)
+		default:
+			b = append(b, rep(unit, max(len(unit), n-4))...)
+		}
+		return b
 	}},
 	{Name: "v6/empty-items", V6: true, Make: func(n, variant int) []byte {
 		code := []uint16{15, 60, 16}[variant%3]
